@@ -1,4 +1,5 @@
 S = 'prysm/segmented.py'
+G = 'prysm/geometry.py'
 CATALOGUE = [
     ('mutant', S, "            local_mask = regular_polygon(6, rseg, xx, yy, center=center, rotation=segment_angle)\n            local_masks.append(local_mask)\n            mask[local_window] |= local_mask",
      "            local_mask = regular_polygon(6, rseg, xx, yy, center=center, rotation=segment_angle)\n            mask[local_window] |= local_mask\n            if not local_mask.any():\n                continue\n            local_masks.append(local_mask)", 'C18.lockstep', 'empty segments recorded in some lists only'),
@@ -9,4 +10,24 @@ CATALOGUE = [
     ('mutant', S, "            segment_ids.append(segment_id)\n            local_masks.append(mask)", "            if mask.any():\n                segment_ids.append(segment_id)\n            local_masks.append(mask)", 'C18.lockstep', 'keystone ids appended conditionally'),
     ('mutant', S, "            self.windows,\n            self.local_coords,\n            self.local_masks,", "            self.windows,\n            self.local_masks,\n            self.local_coords,", 'C18.lockstep', 'constructor unpacks masks and coordinates swapped'),
     ('variant', S, "            tile = sum_of_2d_modes(base, c)\n            tile *= mask\n            out[win] += tile\n\n        return out\n\n\ndef _composite_hexagonal_aperture", "            tile = sum_of_2d_modes(base, c)\n            out[win] += tile*mask\n\n        return out\n\n\ndef _composite_hexagonal_aperture", '', 'mask applied inline'),
+    # ids
+    ('mutant', S, "            mask[local_window] |= local_mask\n\n        segment_id = ids[-1]\n", "            mask[local_window] |= local_mask\n", 'C18.ids', 'ring counter left at the last non-excluded id'),
+    ('mutant', S, "        segment_id = ids[-1]\n", "        segment_id = valid_ids[-1] if len(valid_ids) else segment_id\n", 'C18.ids', 'ring counter from the filtered ids'),
+    ('mutant', S, "        centers = truenp.array(centers)\n        centers = centers[id_mask]", "        centers = truenp.array(centers)\n        centers = centers[:len(valid_ids)]", 'C18.ids', 'centres not filtered by the exclusion mask'),
+    ('variant', S, "        segment_id = ids[-1]\n", "        segment_id = ids[-1]  # last id of the full ring\n        del hexes\n", '', 'unrelated statement after the counter update'),
+    # geometry primitives
+    ('mutant', G, "    return r <= radius", "    return r < radius", 'C18.boundary', 'circle boundary excluded'),
+    ('mutant', G, "    lo = r >= rin", "    lo = r > rin", 'C18.boundary', 'annulus inner boundary excluded'),
+    ('mutant', G, "    x = x - center[0]\n    y = y - center[1]", "    x = x - center[1]\n    y = y - center[0]", 'C18.boundary', 'offset circle centre components swapped'),
+    ('mutant', G, "            p += p_adj", "            p -= p_adj", 'C18.boundary', 'rectangle turned the other way'),
+    ('mutant', G, "    w_mask = (y <= height) & (y >= -height)\n    h_mask = (x <= width) & (x >= -width)", "    w_mask = (y <= width) & (y >= -width)\n    h_mask = (x <= height) & (x >= -height)", 'C18.boundary', 'rectangle width/height swapped'),
+    ('mutant', G, "    minor_axis_term = ((x * np.sin(A) - y * np.cos(A)) ** 2) / b ** 2", "    minor_axis_term = ((x * np.sin(A) + y * np.cos(A)) ** 2) / b ** 2", 'C18.boundary', 'ellipse minor-axis term not orthogonal to the major one'),
+    ('mutant', G, "    arr[major_axis_term + minor_axis_term > 1] = 0", "    arr[major_axis_term + minor_axis_term >= 1] = 0", 'C18.boundary', 'ellipse boundary excluded'),
+    ('mutant', G, "        mask_ = (xxx > 0) & (abs(yyy) < width)", "        mask_ = (xxx > 0) & (abs(yyy) < 2*width)", 'C18.boundary', 'spider vane four times too wide'),
+    ('mutant', G, "        p = p - rotation", "        p = p + rotation", 'C18.boundary', 'spider rotates the other way'),
+    ('mutant', G, "    rotation = np.radians(360 / vanes)", "    rotation = np.radians(180 / vanes)", 'C18.boundary', 'spider vanes at half the angular pitch'),
+    ('mutant', G, "    x = radius * truenp.sin(points * angle + rotation) + x0\n    y = radius * truenp.cos(points * angle + rotation) + y0", "    x = radius * truenp.sin(points * angle + rotation) + x0\n    y = radius * truenp.cos(points * angle - rotation) + y0", 'C18.boundary', 'polygon vertices not on a common rotation'),
+    ('variant', G, "    lo = r >= rin\n    hi = r <= rout\n    return lo & hi", "    return (r <= rout) & (rin <= r)", '', 'annulus written as one expression, operands reordered'),
+    ('variant', G, "    return r <= radius", "    return radius >= r", '', 'circle comparison mirrored'),
+    ('variant', G, "    minor_axis_term = ((x * np.sin(A) - y * np.cos(A)) ** 2) / b ** 2", "    minor_axis_term = ((y * np.cos(A) - x * np.sin(A)) ** 2) / b ** 2", '', 'ellipse minor term negated inside the square'),
 ]
